@@ -183,8 +183,14 @@ class Gen:
             return {"call": "if_else_method", "args": [self.operand("B", depth), self.operand("I", depth),
                                                        self.int_or_const(depth)], "raw": r.random() < 0.3, "t": "I"}
         if fam == "ite":
-            if r.random() < 0.15:
+            u = r.random()
+            if u < 0.15:
                 tv, fv = self.operand("B", depth), self.operand("B", depth)
+            elif u < 0.3:
+                # branches of different secret types: a boolean and a (raw, undeclared) integer
+                tv, fv = self.operand("B", depth), self.operand("I", depth)
+                if r.random() < 0.5:
+                    tv, fv = fv, tv
             else:
                 tv = self.int_or_const(depth)
                 fv = self.int_or_const(depth)
@@ -552,7 +558,7 @@ class CodeGen:
         c = e["call"]
         if c == "ite":
             a = [self.ex(x) for x in e["args"]]
-            if e["t"] == "I" and e["args"][1].get("t") == "B":
+            if e["t"] == "I" and e["args"][1].get("t") == "B" and e["args"][2].get("t") == "B":
                 # if_then_else(c, x, x) returns x itself; "+ 0" keeps the result integer-typed
                 return "(if_then_else(%s, %s, %s) + 0)" % tuple(a)
             return "if_then_else(%s, %s, %s)" % tuple(a)
@@ -927,6 +933,9 @@ class CodeGen:
             return self.tv(e["tv"]) + "".join("[%d]" % i for i in e.get("path", []))
         if "list" in e:
             return "[%s]" % ", ".join(self.bx(x) for x in e["list"])
+        if "ext" in e:
+            # a plain Python list living outside the BranchingValues object (whole, or one cell of it)
+            return "E_" + e["ext"] + "".join("[%d]" % i for i in e.get("path", []))
         if "lv" in e:
             return e["lv"]                       # loop variable of an enclosing _range
         if "ref" in e:
@@ -948,6 +957,11 @@ class CodeGen:
     def st_tracked_init(self, s):
         self.emit("%s = %s" % (self.tv(s["name"]), self.bx(s["e"])))
         self.step({"kind": "tracked_init", "desc": {"op": "tracked_init"}})
+
+    def st_ext_list(self, s):
+        self.emit("E_%s = %s" % (s["name"], self.bx(s["e"])))
+        self.ext_lists = getattr(self, "ext_lists", []) + [s["name"]]
+        self.step({"kind": "ext_list", "desc": {"op": "ext_list"}})
 
     def st_track(self, s):
         self.emit("%s%s = %s" % (self.tv(s["name"]), "".join("[%d]" % i for i in s.get("path", [])), self.bx(s["e"])))
@@ -1124,7 +1138,7 @@ class CodeGen:
         self.step({"kind": "snark_call", "desc": {"op": "snark_call"}})
 
     # -- qaptools sub-circuits (C12) -----------------------------------------------------------
-    SUBQAP_RET = {0: 1, 1: 1, 2: 2, 3: 1, 4: 1, 5: 1, 6: 2, 7: 0}
+    SUBQAP_RET = {0: 1, 1: 1, 2: 2, 3: 1, 4: 1, 5: 1, 6: 2, 7: 0, 8: 1}
 
     def subqap_defs(self):
         for k, f in enumerate(self.plan.get("subqaps", [])):
@@ -1151,6 +1165,13 @@ class CodeGen:
                 # linear combination)
                 self.emit("s = PrivVal(%d)" % (3 + k))
                 self.emit("return [s * s, s + 3]")
+            elif t == 8:
+                # MISUSE (a usage fault the backend has to report): the function multiplies by a secret of its caller
+                # that was not handed over as an argument, so the equation mixes two contexts
+                if f.get("swap"):
+                    self.emit("return %s * vI0" % a0)
+                else:
+                    self.emit("return vI0 * %s" % a0)
             elif t == 7:
                 # neither secret arguments nor secret results: a self-contained side condition
                 self.emit("s = PrivVal(%d)" % (2 + k))
@@ -1271,6 +1292,8 @@ class CodeGen:
         self.step({"kind": "inputs"})
         for s in self.plan["body"]:
             self.st(s)
+        for nm in getattr(self, "ext_lists", []):
+            self.emit("__ext__(%r, E_%s)" % (nm, nm))      # final content of the outside lists
         if in_fn:
             if self.mode == "native":
                 self.emit("__ret__({k[2:]: v for k, v in locals().items() if k.startswith('T_')})")
